@@ -208,17 +208,27 @@ def gen_chain(rng, hops=None, with_explicit_host=None, add_at_hops=True, malform
                 cands = [(k, v) for k, v in orig_headers if k in (b"cookie", b"authorization", b"x-keep")]
                 if cands:
                     added.insert(rng.randrange(0, len(added) + 1), rng.choice(cands))
-        for k, v in added:
+        # a body-less method may be given a body on request, on the first request or on a redirected one (send_body_despite_method);
+        # the call is made before, between or after the additions
+        despite_here = cur_method not in BODY_METHODS and rng.random() < 0.15
+        despite_at = rng.randrange(0, len(added) + 1) if despite_here else None
+        for i, (k, v) in enumerate(added):
+            if despite_at == i:
+                ops.append("despite")
             ops.append("header %s %s" % (hx(k), hx(v)))
+        if despite_at == len(added):
+            ops.append("despite")
         ops += ["q_uri", "q_method", "proceed", "write_head #100000"]
         head_idx = len(ops) - 1
-        hop_meta.append({"hop": h, "added": [[k.hex(), v.hex()] for k, v in added], "head_idx": head_idx, "quri_idx": head_idx - 3,
+        hop_meta.append({"hop": h, "added": [[k.hex(), v.hex()] for k, v in added], "head_idx": head_idx, "quri_idx": head_idx - 3, "despite": despite_here,
                          "qmethod_idx": head_idx - 2, "uri": [x.hex() if x is not None else None for x in cur], "method": cur_method})
         if h == hops:
             break
         ops.append("proceed")
         # --- send the body if one is due
-        if cur_method in BODY_METHODS:
+        if despite_here:
+            ops += ["write_body %s #100" % hx(b"hi"), "write_body x #100", "proceed"]      # default framing: chunked
+        elif cur_method in BODY_METHODS:
             if h == 0 and body_len is not None:
                 ops.append("write_body z%d #100000" % body_len if body_len > 0 else "write_body x #0")
             else:
@@ -234,15 +244,24 @@ def gen_chain(rng, hops=None, with_explicit_host=None, add_at_hops=True, malform
             loc = gen_location(rng, cur)
         fields = []
         n_loc = 1
-        if rng.random() < 0.15:
-            fields.append((b"Location", gen_location(rng, cur)))  # an earlier Location field: the last one wins
-            n_loc = 2
-        fields.append((b"Location", loc))
+        noloc = (not malformed) and rng.random() < 0.04
+        if noloc:
+            # a 3xx without any Location field: following it is an error (whatever an interim response before it carried)
+            malformed = True
+            n_loc = 0
+        else:
+            if rng.random() < 0.15:
+                fields.append((b"Location", gen_location(rng, cur)))  # an earlier Location field: the last one wins
+                n_loc = 2
+            fields.append((b"Location", loc))
         with_body = rng.random() < body_resp_prob and cur_method != "HEAD"
         fields.append((b"Content-Length", b"3" if with_body else b"0"))
         if rng.random() < 0.2:
             fields.insert(0, (b"Set-Cookie", b"s=1"))
         resp = render_response_head("1.1", status, b"Moved", fields)
+        if noloc or rng.random() < 0.12:
+            # an interim 1xx response first (with fields of its own, among them a Location): the caller asks again on the same flow
+            ops += ["raw_try_response %s" % hx(rng.choice(INTERIM_HEADS[:3]))]
         ops += ["raw_try_response %s" % hx(resp), "proceed"]
         if with_body:
             ops += ["raw_read %s #100" % hx(b"abc"), "proceed"]
